@@ -119,11 +119,13 @@ void rev64_case( Ctx& c, const char* name, Impl impl )
         k.evaluations = n; k.nontrivial = nt;
         k.samples.push_back( "rev64(1)=" + hex( impl( uint64_t( 1 ))));
     } );
-    std::vector<uint64_t> fills = { 0, ~uint64_t( 0 ) };
-    if ( c.thorough()) fills.push_back( 0xa5a5a5a55a5a5a5aull );
     for ( int half = 0; half < 2; ++half ) {
+        // quick: the other half is all-zero for the low-half sweep and all-one for the high-half sweep; thorough: 0, ~0 and a pattern for both
+        std::vector<uint64_t> fills;
+        if ( c.thorough()) fills = { 0, ~uint64_t( 0 ), 0xa5a5a5a55a5a5a5aull };
+        else fills = { half ? ~uint64_t( 0 ) : 0 };
         run_case( c, std::string( "rev64/" ) + name + ( half ? "/high-half" : "/low-half" ),
-            "all 2^32 values of one half, the other half in {0, ~0" + std::string( c.thorough() ? ", a5a5a5a5/5a5a5a5a" : "" ) + "}", true, [&]( Case& k ) {
+            "all 2^32 values of one half, the other half in " + std::string( c.thorough() ? "{0, ~0, a5a5a5a5/5a5a5a5a}" : ( half ? "{~0}" : "{0}" )), true, [&]( Case& k ) {
             std::atomic<uint64_t> nt{ 0 };
             for ( uint64_t fill : fills ) {
                 parallel_range( c, uint64_t( 1 ) << 32, [&]( uint64_t lo, uint64_t hi, int ) {
@@ -158,7 +160,13 @@ std::vector<uint64_t> source_set( unsigned bits )
 {
     std::vector<uint64_t> s;
     uint64_t mask = bits >= 64 ? ~uint64_t( 0 ) : (( uint64_t( 1 ) << bits ) - 1 );
+#if defined(__SANITIZE_ADDRESS__)
+    // the AddressSanitizer unit only looks for reads past the end of the source: the access pattern does not depend on the
+    // source bits, so a strided source set is enough there (the plain unit enumerates all sources)
+    if ( bits <= 16 ) { for ( uint64_t v = 0; v <= mask; v += ( bits <= 8 ? 1 : 251 )) s.push_back( v ); s.push_back( mask ); return s; }
+#else
     if ( bits <= 16 ) { for ( uint64_t v = 0; v <= mask; ++v ) s.push_back( v ); return s; }
+#endif
     for ( unsigned a = 0; a < bits; ++a ) {
         s.push_back( uint64_t( 1 ) << a ); s.push_back( mask & ~( uint64_t( 1 ) << a ));
         s.push_back( mask & (( uint64_t( 1 ) << a ) - 1 )); s.push_back( mask & ~(( uint64_t( 1 ) << a ) - 1 ));
